@@ -10,7 +10,8 @@
  *     reg:<c>:<r>:<q>:<tok>:<t>[:<x>]  observer c sends GET Observe:0 for resource r; q = '-' or
  *                                      '+'-separated hex Uri-Query values; tok = hex token;
  *                                      t = 0 CON / 1 NON; x = extra options 'n=hex,n=hex' (n decimal;
- *                                      all options are sent in ascending order)
+ *                                      all options are sent in ascending order; the pseudo
+ *                                      option 0 makes the request a FETCH with that payload)
  *     can:<c>:<r>:<q>:<tok>:<t>[:<x>]  same with Observe:1
  *     redo:<c>                          the last request datagram of observer c arrives again
  *     chg:<r>:<n>                       the application changes resource r n times
@@ -195,6 +196,7 @@ static void mk_resource(int i) {
   coap_resource_set_userdata(R[i].res, &R[i]);
   coap_resource_set_get_observable(R[i].res, 1);
   coap_register_request_handler(R[i].res, COAP_REQUEST_GET, on_get);
+  coap_register_request_handler(R[i].res, COAP_REQUEST_FETCH, on_get);
   coap_add_resource(srv, R[i].res);
 }
 
@@ -231,7 +233,9 @@ static void do_request(char **f, int nf, int observe) {
   n += tl;
   /* collect the options, then emit them in ascending order (stable) */
   struct { unsigned num; uint8_t v[40]; size_t len; } o[24];
-  int no = 0;
+  int no = 0, fetch = 0;
+  uint8_t payload[16];
+  size_t paylen = 0;
   o[no].num = COAP_OPTION_OBSERVE;
   o[no].v[0] = (uint8_t)observe;
   o[no].len = observe ? 1 : 0;
@@ -269,10 +273,17 @@ static void do_request(char **f, int nf, int observe) {
         size_t xl;
         uint8_t *xb = bytes_of_tok(*eq == '_' ? "-" : eq, &xl);
         if (xl > 12) xl = 12;
-        o[no].num = (unsigned)atoi(x);
-        o[no].len = xl;
-        memcpy(o[no].v, xb, xl);
-        no++;
+        if (atoi(x) == 0) {
+          /* pseudo option 0: the request is a FETCH with this payload */
+          fetch = 1;
+          paylen = xl;
+          memcpy(payload, xb, xl);
+        } else {
+          o[no].num = (unsigned)atoi(x);
+          o[no].len = xl;
+          memcpy(o[no].v, xb, xl);
+          no++;
+        }
         free(xb);
       }
       x = nx;
@@ -286,6 +297,14 @@ static void do_request(char **f, int nf, int observe) {
     }
   for (int a = 0; a < no && n < 230; a++)
     n += put_opt(b + n, &last, o[a].num, o[a].v, o[a].len);
+  if (fetch) {
+    b[1] = COAP_REQUEST_CODE_FETCH;
+    if (paylen) {
+      b[n++] = 0xff;
+      memcpy(b + n, payload, paylen);
+      n += paylen;
+    }
+  }
   free(tok);
   memcpy(last_req[c], b, n);
   last_req_len[c] = n;
